@@ -462,6 +462,23 @@ func c05observe[V any](im c05impl[V], m *ordered.Map[string, V], model *c05model
 		if got := ordered.Equal(m, m); !got {
 			return "Equal(m, m)=false (not reflexive)"
 		}
+		// the same comparison one level down: maps that hold m / an independently built equal map as a VALUE are equal as
+		// dictionaries, whatever m's history left in its storage (also: a zero-value map versus an empty NewMap as values)
+		if m != nil {
+			ind := ordered.MapFromItems(items...)
+			o1 := ordered.MapFromItems(ordered.TupleSA{Key: "nested", Value: m}, ordered.TupleSA{Key: "list", Value: []any{m, 1}})
+			o2 := ordered.MapFromItems(ordered.TupleSA{Key: "nested", Value: ind}, ordered.TupleSA{Key: "list", Value: []any{ind, 1}})
+			if !ordered.Equal(o1, o2) || !ordered.Equal(o2, o1) {
+				return "Equal is false for two maps whose nested map values hold the same keys, values and order"
+			}
+			if n > 0 {
+				other := ordered.MapFromItems(items[:n-1]...)
+				o3 := ordered.MapFromItems(ordered.TupleSA{Key: "nested", Value: other}, ordered.TupleSA{Key: "list", Value: []any{ind, 1}})
+				if ordered.Equal(o1, o3) {
+					return "Equal is true although the nested map values differ in length"
+				}
+			}
+		}
 		// a map differing in one value / one key / order must be unequal
 		if n > 0 {
 			items2 := append([]ordered.Tuple[string, V]{}, items...)
